@@ -329,7 +329,7 @@ class FuncAnalysis:
         tags = tuple(tags)
         if self.handler_stack and "AttributeError" in self.handler_stack[-1] and kind == "attr":
             tags = tags + ("lazy-init",)
-        if kind == "attr" and self.memo_stack and sub and sub[-1] in self.memo_stack:
+        if kind == "attr" and sub and ((self.memo_stack and sub[-1] in self.memo_stack) or self._memo_write(sub[-1])):
             tags = tags + (f"memo:{sub[-1]}",)
         for (root, path, cond) in refs:
             c = cond_and(cond_and(self.pathcond, cond), extra_cond)
@@ -425,7 +425,25 @@ class FuncAnalysis:
         m = getattr(self, "s_" + type(s).__name__, None)
         if m is None:
             raise AnalysisError(f"{self.f.fq}: unsupported statement {type(s).__name__}")
-        m(s, env)
+        prev = getattr(self, "cur_stmt", None)
+        self.cur_stmt = s
+        try:
+            m(s, env)
+        finally:
+            self.cur_stmt = prev
+
+    def _memo_write(self, slot):
+        """is the statement being analysed executed only when self.<slot> is known to be None (memo fill)?"""
+        s = getattr(self, "cur_stmt", None)
+        if s is None or self.selfname is None or not isinstance(s, (ast.Assign, ast.AnnAssign)):
+            return False
+        from .astutil import memo_dominated
+
+        key = (id(s), slot)
+        cache = self.__dict__.setdefault("_memo_cache", {})
+        if key not in cache:
+            cache[key] = memo_dominated(self.f.node, s, slot, self.selfname)
+        return cache[key]
 
     def s_Expr(self, s, env):
         self.expr(s.value, env)
